@@ -7,6 +7,7 @@ single DEVIATION from it are executed and their histories and return values comp
   verbose    verbosity flipped
   folder     a saving folder set
   ctor7/ctorN  sampler (and RL scheduler/agent) objects constructed with seeds 7 / 12345 instead of None
+  used       the sampler objects were used by hand before the calibration (samplers whose only carried state is random)
 Thorough adds all pairs of deviations.
 """
 from __future__ import annotations
@@ -22,7 +23,10 @@ from vf.opseq import cal as C
 ID = "C01"
 TITLE = "A calibration run is a pure function of its configuration and seed"
 NONDETERMINISM_IS_VIOLATION = True
-DEVIATIONS = ["twin", "jobs2", "jobs4", "verbose", "folder", "ctor7", "ctorN"]
+DEVIATIONS = ["twin", "jobs2", "jobs4", "verbose", "folder", "ctor7", "ctorN", "used"]
+# samplers whose only state between calibrations is random (a reseed must make a used object behave like a fresh one);
+# the particle swarm and CORS keep algorithmic state (swarm, sample counter) by design and are not pre-used
+RESEED_RESETS = {"Halton", "RSequence", "RandomUniform", "BestBatch", "XGBoost", "RandomForest", "GaussianProcess"}
 
 
 def apply_dev(cfg, devs):
@@ -37,6 +41,8 @@ def apply_dev(cfg, devs):
             c["verbose"] = not cfg.get("verbose", False)
         elif d == "folder":
             c["_folder"] = True
+        elif d == "used":
+            c["_preuse"] = True
         elif d in ("ctor7", "ctorN"):
             sd = 7 if d == "ctor7" else 12345
             for s in c["lineup"]:
@@ -51,7 +57,26 @@ def one_run(cfg):
         c = dict(cfg)
         if c.pop("_folder", False):
             c["saving_folder"] = str(tmp / "ck")
-        cal = C.build(c)
+        samplers = None
+        if c.pop("_preuse", False):
+            # the sampler objects have been used by hand before the calibration (e.g. in an earlier calibration): hidden random
+            # state must not survive the reseeding at batch 0
+            from vf import lattice as L
+            from black_it.search_space import SearchSpace
+
+            bounds, prec = C.space(c)
+            sp = SearchSpace(bounds, prec, verbose=False)
+            pts, losses = L.history(sp, 7, "distinct")
+            samplers = [C.make_sampler(s_) for s_ in c["lineup"]]
+            for spec, obj in zip(c["lineup"], samplers):
+                if spec["cls"] in RESEED_RESETS:
+                    try:
+                        with quiet():
+                            obj.sample(sp, pts, losses)
+                            obj.sample(sp, pts, losses)
+                    except Exception:  # noqa: BLE001  (a by-hand use that fails, e.g. a singular kernel, is still a use)
+                        pass
+        cal = C.build(c, samplers=samplers)
         with quiet():
             ret = cal.calibrate(cfg["batches"])
         h = C.history(cal)
